@@ -730,8 +730,8 @@ func (e *Engine) modKeys(callee *ssa.Function, ml modLoc) ([]string, error) {
 						return nil, fmt.Errorf("modifies: unsupported map type of %s", v)
 					}
 					ft := st.Field(i).Type()
-					return []string{e.regKey("MD:"+typeKey(ft), e.Sorts.ArrOf(SRef, e.Sorts.ArrOf(ks, SBool))),
-						e.regKey("MV:"+typeKey(ft), e.Sorts.ArrOf(SRef, e.Sorts.ArrOf(ks, vs)))}, nil
+					return []string{e.regKey("MD:"+typeKey(ft.Underlying()), e.Sorts.ArrOf(SRef, e.Sorts.ArrOf(ks, SBool))),
+						e.regKey("MV:"+typeKey(ft.Underlying()), e.Sorts.ArrOf(SRef, e.Sorts.ArrOf(ks, vs)))}, nil
 				}
 				fp, ok := st.Field(i).Type().Underlying().(*types.Pointer)
 				if !ok {
@@ -815,7 +815,14 @@ func (f *frame) callContract(fc *FuncContract, callee *ssa.Function, args []*Val
 	}
 	sig := callee.Signature
 	// receiver non-nil
-	if sig.Recv() != nil && !f.pure && len(args) > 0 && args[0].T != nil && args[0].T.Sort == SRef {
+	_, recvIsPtr := func() (types.Type, bool) {
+		if sig.Recv() == nil {
+			return nil, false
+		}
+		_, ok := sig.Recv().Type().Underlying().(*types.Pointer)
+		return sig.Recv().Type(), ok
+	}()
+	if sig.Recv() != nil && recvIsPtr && !f.pure && len(args) > 0 && args[0].T != nil && args[0].T.Sort == SRef {
 		f.oblige("pre", callee.Name()+":receiver-non-nil", Not(Eq(args[0].T, f.e.nilRef())), pos)
 	}
 	if !f.pure {
